@@ -10,6 +10,7 @@ import re
 
 from symx import And, SymNum
 from symx.runner import Unit
+from harness import multipass
 
 import src.alignment.alignment_results as ar
 from src.alignment.alignment_results import AlignmentResultRow
@@ -140,4 +141,4 @@ def units(prop):
                "symbolic bounds)"],
         outside=["gaps larger than G (the walk's trip count equals the gap, so gap values are enumerated by forks)",
                  "more than 5 pairs"],
-    )]
+    ), multipass.multipass_unit(prop)]
